@@ -1,4 +1,6 @@
 import EupsModel.Lemmas.Expand
+import EupsModel.Lemmas.ExpandDeps
+import EupsModel.Lemmas.ExpandSetup
 /-! C17 — an expanded table file reproduces the build-time versions exactly.  Property theorems only
 (the model is `Model/Expand.lean`, helper lemmas are in `Lemmas/Expand.lean`).
 
@@ -97,6 +99,25 @@ theorem C17_never_foreign_text (A : Answers) (o : Opts) (lines : List Str) (item
       subst hdn; subst hdv
       exact .inl (hs n0 v0 dl hdl d hd)
   · simp at hl
+
+/-- **`DepsSound` discharged from the C13 model of the dependency listing** (`Model/Deps.lean`): take the answers of
+`getDependencies(n, v, setup=True, shouldRaise=True)` to be what the C13 model computes (`depsOfModel`:
+`findProduct(n, v)`, then `Deps.getDependentProductsSetup`, not topological; `raises` = the answers for which
+`shouldRaise=True` raised, arbitrary) and `getSetupVersion` to read the same `SETUP_<P>` records `setup` as the listing;
+then `DepsSound` holds, for every database, every records list and every fuel. -/
+theorem C17_DepsSound_from_Deps (db : Deps.Db) (fuel : Nat) (setup : List (Str × Str)) (raises : Str → Str → Bool)
+    (A : Answers) (hsv : ∀ n, A.sv n = setup.lookup n)
+    (hdeps : ∀ n v, A.deps n v = depsOfModel db fuel setup raises n v) : DepsSound A :=
+  depsSound_of_depsModel db fuel setup raises A hsv hdeps
+
+/-- `C17_never_foreign` with `DepsSound` discharged: when the dependency listings are those of the C13 model, every
+`-j v` line of the exact block names a set-up `(n, v)` or a `-p` pin — no hypothesis on the listings left. -/
+theorem C17_never_foreign_over_Deps (db : Deps.Db) (fuel : Nat) (setup : List (Str × Str)) (raises : Str → Str → Bool)
+    (A : Answers) (hsv : ∀ n, A.sv n = setup.lookup n)
+    (hdeps : ∀ n v, A.deps n v = depsOfModel db fuel setup raises n v)
+    (o : Opts) (lines : List Str) (items : List Item) (h : expandItems A o lines = .ok items)
+    (ind : Int) (opt : Bool) (n v : Str) (hx : Item.pin ind opt n v ∈ items) : Recorded A n v :=
+  C17_never_foreign A o lines items (depsSound_of_depsModel db fuel setup raises A hsv hdeps) h ind opt n v hx
 
 /-! ## keeps the original constraints for inexact mode -/
 
@@ -329,6 +350,83 @@ theorem C17_exact_reproduces_partial {Db : Type} (declared : Db → Str → Str 
   exact H.pin_sets_exactly pl db'
 
 
+/-! ## exact reproduction over the model of `Eups.setup` (C01) -/
+
+/-- **The Setup half of `ExactSetupHyps.pin_sets_exactly`, discharged from `Model/Setup.lean`.**  The action loop of
+`Eups.setup` (`Setup.acts` with `Setup.setup`, exact VRO, no `--keep`, no `--max-depth`), run at the top level on the
+actions `pinAct` of pin lines `setupX(n -j v)` for distinct products none of which is set up yet, behaves as `runPins`
+says: it succeeds with exactly the records `runPins` computes, or raises when `runPins` fails (a required pin that is no
+longer declared).  Every database, every fuel ≥ 1. -/
+theorem C17_pins_run_by_Setup (cfg : Setup.Cfg) (hk : cfg.keep = false) (hm : cfg.maxDepth = none) (fuel : Nat) (top : Setup.Decl)
+    (pins : List (Bool × Str × Str)) (s : Setup.St)
+    (hnodup : (pins.map (·.2.1)).Nodup)
+    (hfresh : ∀ p ∈ pins, Setup.aget s.already p.2.1 = none ∧ s.env.rec? p.2.1 = none) :
+    (∀ r, runPins declaredS cfg.db pins (fun m => s.env.rec? m) = some r →
+      ∃ s', Setup.acts (Setup.setup cfg (fuel + 1)) cfg true 0 false exactVro top (pins.map pinAct) s = .ok s' ∧
+        ∀ m, s'.env.rec? m = r m) ∧
+    (runPins declaredS cfg.db pins (fun m => s.env.rec? m) = none →
+      ∃ s', Setup.acts (Setup.setup cfg (fuel + 1)) cfg true 0 false exactVro top (pins.map pinAct) s = .raised s') :=
+  acts_pins cfg hk hm fuel top pins s hnodup hfresh
+
+/-- `C17_exact_reproduces_over_Setup`: exact reproduction with the exact-mode setup of the C01 model, at the level of
+actions.  For a successful expansion (no pre-existing exact block, `addExactBlock`) whose build environment is the closure
+of the table (`DepsSound`, `Covered`, `-p` pins agree with the records), any later Setup database `cfg.db` in which the
+recorded versions are still declared, and any state `s` in which nothing but the top-level product is set up: running
+`Eups.setup`'s action loop in exact mode on the actions of the pin lines of the expanded table succeeds and leaves, for
+every product other than the top-level one, exactly its build-time record.  What is still assumed to connect this to the
+*text* of the expanded table is TableParse's part: that in exact mode the table's action list is `pinAct` of the pin lines
+(plus actions that do not touch records). -/
+theorem C17_exact_reproduces_over_Setup (cfg : Setup.Cfg) (hk : cfg.keep = false) (hm : cfg.maxDepth = none) (fuel : Nat)
+    (top : Setup.Decl) (s : Setup.St)
+    (A : Answers) (o : Opts) (lines : List Str) (items : List Item)
+    (h : expandItems A o lines = .ok items) (hn : noExactLine A o lines = true) (ha : o.addExactBlock = true)
+    (hsound : DepsSound A) (hpins : ∀ n v, A.pin n = some v → A.sv n = some v)
+    (hcov : ∀ st, readAll A o lines = .ok st → Covered A o st)
+    (hdecl : ∀ n v, A.sv n = some v → declaredS cfg.db n v = true)
+    (hclean : ∀ n, o.toplevel ≠ some n → Setup.aget s.already n = none ∧ s.env.rec? n = none)
+    (htop : ∀ v, ∀ n, o.toplevel = some n → (n, v) ∉ (items.filterMap pinKey).map (·.2)) :
+    ∃ s', Setup.acts (Setup.setup cfg (fuel + 1)) cfg true 0 false exactVro top ((items.filterMap pinKey).map pinAct) s = .ok s' ∧
+      ∀ n, o.toplevel ≠ some n → s'.env.rec? n = A.sv n := by
+  obtain ⟨st, c, hr, hc, hpk⟩ := expand_pins h hn ha
+  have hsv : ∀ q ∈ c.desired, A.sv q.1 = some q.2 := by
+    intro q hq
+    rcases collect_desired hc q hq with h1 | ⟨_, n0, v0, l, d, _, hl, hd, hdn, hdv⟩
+    · rcases h1 with h1 | h1
+      · exact h1
+      · exact hpins _ _ h1
+    · rw [← hdn, ← hdv]; exact hsound n0 v0 l hl d hd
+  have hall : ∀ x ∈ c.pinKeys, declaredS cfg.db x.2.1 x.2.2 = true ∧ A.sv x.2.1 = some x.2.2 := by
+    intro x hx
+    simp only [CState.pinKeys, List.mem_map] at hx
+    obtain ⟨⟨n, v⟩, hq, rfl⟩ := hx
+    have := hsv (n, v) hq
+    exact ⟨hdecl n v this, this⟩
+  have hnames : ∀ x ∈ c.pinKeys, o.toplevel ≠ some x.2.1 := by
+    intro x hx htl
+    refine htop x.2.2 x.2.1 htl ?_
+    rw [hpk]
+    exact List.mem_map_of_mem (f := fun y : Bool × Str × Str => y.2) hx
+  rw [hpk]
+  obtain ⟨r, hrun, hspec⟩ := runPins_spec declaredS cfg.db A.sv c.pinKeys (fun m => s.env.rec? m) hall
+  obtain ⟨hok, _⟩ := acts_pins cfg hk hm fuel top c.pinKeys s
+    (pinKeys_names_nodup (collect_nodup hc) hsv) (fun p hp => hclean p.2.1 (hnames p hp))
+  obtain ⟨s', hs', hrecs⟩ := hok r hrun
+  refine ⟨s', hs', fun n hne => ?_⟩
+  rw [hrecs]
+  by_cases hin : ∃ x ∈ c.pinKeys, x.2.1 = n
+  · exact (hspec n).1 hin
+  · rw [(hspec n).2 hin, (hclean n hne).2]
+    cases hs : A.sv n with
+    | none => rfl
+    | some v =>
+      exfalso
+      obtain ⟨p, hp, d, hd, hdn⟩ := hcov st hr n v hs hne
+      have hm' := collect_complete hc p hp d hd
+      apply hin
+      refine ⟨(c.optional.contains (d.name, d.version) || c.notFound.contains d.name, d.name, d.version), ?_, hdn⟩
+      simp only [CState.pinKeys, List.mem_map]
+      exact ⟨(d.name, d.version), hm', rfl⟩
+
 /-! ## concrete instances: the hypotheses are satisfiable, the theorems are not vacuous; negation witnesses -/
 
 /-- string literal as a list of code points -/
@@ -443,6 +541,59 @@ example : (match parseArgs (str! "b >= 1") with
     | .error _ => false) = true := by decide +kernel
 example : decideRewrite D1.toAnswers o1 false ⟨str! "b", [], none, some (str! ">= 1")⟩
     = some ⟨false, str! "b", [], some (str! "1"), some (str! ">= 1")⟩ := by decide +kernel
+
+/-- `C17_DepsSound_from_Deps` is not vacuous: a C13 database `a 1 → b 1 → c (current 2)`, records `b 1`, `c 2`; the model's
+listing for `b 1` is `[c 2]`, and the answers built from it satisfy the theorem's hypotheses by definition. -/
+def depsDb1 : Deps.Db :=
+  { decls := [⟨str! "a", str! "1", [⟨false, false, str! "b", none, false, false⟩], false⟩,
+              ⟨str! "b", str! "1", [⟨false, false, str! "c", none, false, false⟩], false⟩,
+              ⟨str! "c", str! "1", [], false⟩, ⟨str! "c", str! "2", [], false⟩],
+    current := [(str! "b", str! "1"), (str! "c", str! "1")] }
+def setup1 : List (Str × Str) := [(str! "a", str! "1"), (str! "b", str! "1"), (str! "c", str! "2")]
+def A1 : Answers :=
+  { pin := fun _ => none, spv := fun n => setup1.lookup n, sv := fun n => setup1.lookup n,
+    deps := depsOfModel depsDb1 depsDb1.fuel setup1 (fun _ _ => false) }
+example : (match A1.deps (str! "b") (str! "1") with
+    | .ok l => l == [⟨str! "c", str! "2", false⟩]      -- the set-up version 2, not the current one
+    | _ => false) = true := by decide +kernel
+example : DepsSound A1 :=
+  C17_DepsSound_from_Deps depsDb1 depsDb1.fuel setup1 (fun _ _ => false) A1 (fun _ => rfl) (fun _ _ => rfl)
+
+/-- `C17_exact_reproduces_over_Setup` is not vacuous: a later C01 database (newer versions of `b` and `c` declared, `current`
+moved), the state in which only the top product `a 1` is set up, and the expansion `items1` of the example above; the
+theorem then says that the exact-mode action loop on the three pin actions records `b 1`, `c 2`, `d 1`. -/
+def setupDb1 : Setup.Db :=
+  { decls := [⟨str! "a", str! "1", str! "/s/a/1", []⟩, ⟨str! "b", str! "1", str! "/s/b/1", [(.always, .dep (str! "c") false false none none [])]⟩,
+              ⟨str! "b", str! "7", str! "/s/b/7", []⟩, ⟨str! "c", str! "2", str! "/s/c/2", []⟩, ⟨str! "c", str! "8", str! "/s/c/8", []⟩,
+              ⟨str! "d", str! "1", str! "/s/d/1", [(.always, .dep (str! "c") false false none none [])]⟩],
+    tags := [(Setup.tagCurrent, str! "b", str! "7"), (Setup.tagCurrent, str! "c", str! "8")] }
+def setupCfg1 : Setup.Cfg := ⟨setupDb1, false, none, true⟩
+def topDecl1 : Setup.Decl := ⟨str! "a", str! "1", str! "/s/a/1", []⟩
+def setupSt1 : Setup.St :=
+  ⟨⟨[(str! "a", str! "1")], [], [], []⟩, [], [], [(str! "a", (topDecl1, some .commandLine))]⟩
+
+example : ∃ s', Setup.acts (Setup.setup setupCfg1 2) setupCfg1 true 0 false exactVro topDecl1 ((items1.filterMap pinKey).map pinAct) setupSt1 = .ok s' ∧
+    ∀ n, o1.toplevel ≠ some n → s'.env.rec? n = D1.toAnswers.sv n :=
+  C17_exact_reproduces_over_Setup setupCfg1 rfl rfl 1 topDecl1 setupSt1 D1.toAnswers o1 T1 items1 expand1 (by decide +kernel) rfl
+    (depsSound_of_data (by decide +kernel)) (pinsAgree_of_data (by decide +kernel)) (covered_of_data (by decide +kernel))
+    (by
+      intro n v h
+      have hm := lookup_mem (l := D1.sv) h
+      have : ∀ e ∈ D1.sv, declaredS setupDb1 e.1 e.2 = true := by decide +kernel
+      exact this (n, v) hm)
+    (by
+      intro n hne
+      have hna : (str! "a") ≠ n := fun e => hne (by rw [← e]; rfl)
+      simp [setupSt1, Setup.aget, Setup.Env.rec?, hna])
+    (by
+      intro v n htl
+      have : n = str! "a" := by
+        have : some (str! "a") = some n := htl
+        exact (Option.some.inj this).symm
+      subst this
+      have hp : (items1.filterMap pinKey).map (·.2) = [(str! "b", str! "1"), (str! "c", str! "2"), (str! "d", str! "1")] := by decide +kernel
+      rw [hp]
+      simp)
 
 /-! ### negation witnesses: the two ways `C17_exact_reproduces` failed on the pinned tree -/
 
